@@ -44,8 +44,50 @@ def _compare(u, x, what, key, fails):
         fails.append(fail("final_result_differs", "%s: uninterrupted %r, resumed %r" % (what, u["result"], x["result"]), key))
 
 
+def _fs(x):
+    return [1.0, float(x[0]) + 2.0 * float(x[-1]), float(np.exp(-3.0 * (x[0] - 0.3) ** 2) * (1.0 + x[-1] ** 2))]
+
+
+def _scripted_case(case):
+    """explorer part: the state is a scripted refinement history; EVERY split of it into a first run (k steps) and a continuation
+    (both documented ways) must end where the uninterrupted history ends"""
+    c, hist = case["config"], case["history"]
+    strat = c["scripted"]
+    mod, kw = (dw, {}) if strat == "dw" else (es, {"strategy": strat})
+    U = mod.build(c, hist, _fs, 3, **kw)
+
+    def fin(r):
+        return {"structure": _structure(r.sa, strat), "scheme": _scheme(r.sa) if strat == "dw" else None,
+                "lmax": tuple(int(x) for x in np.ravel(r.sa.lmax)), "result": np.asarray(r.result[3], dtype=float).copy(),
+                "points": int(r.sa.get_total_num_points())}
+    u = fin(U)
+    fails = []
+    key = {"strategy": strat, "kind": "scripted_history"}
+    for k in range(len(hist) + 1):
+        for how in ("continue", "container"):
+            X = mod.build(c, hist, _fs, 3, resume=(k, how), **kw)
+            kk = dict(key, variant=how)
+            if strat == "es" and how == "container" and c.get("version") == 2 and any(e[2] == "E" or (e[2] is None) for st in hist[:k] for e in st):
+                # known finding: version 2 re-evaluates untouched areas after an extend elsewhere with a different (valid) local combination
+                kk["version2_reevaluation_after_extend"] = True
+            _compare(u, fin(X), "history of %d steps, stopped after %d, %s" % (len(hist), k, how), kk, fails)
+    out = {"failures": fails, "canon": (strat, u["structure"], u["lmax"]), "outcome": (len(hist), not fails),
+           "nontrivial": len(hist) >= 2, "evals": 1 + 2 * (len(hist) + 1)}
+    if case.get("want_events"):
+        if strat == "dw":
+            out["events"] = dw.events_for(U.sa, c)
+        elif strat == "es":
+            out["events"] = es.events(U.sa, c)
+        else:
+            from checks import c04
+            out["events"] = c04._cell_events(U.sa, c.get("s", 1))
+    return out
+
+
 def run_case(case):
     c = case["config"]
+    if "scripted" in c:
+        return _scripted_case(case)
     strat, kind, norm = c["strategy"], c["integrand"], c["norm"]
     tol, mx_final = c["tol"], c["max_evaluations"]
     key = {"strategy": strat.split("_")[0]}
@@ -121,9 +163,24 @@ def main(ctx):
         ctx.add_sample(cases[i])
     ctx.bounds = {"strategies": strategies, "integrands": kinds, "final_limits": finals, "uninterrupted_runs": len(base),
                   "interruption_cases": len(cases)}
+    # explorer part: scripted histories, every split point, both ways to continue
+    T2 = [[0.3, 0.3], [0.3, 0.8]]
+    scripted = [({"scripted": "dw", "d": 2, "lmin": 1, "lmax": 2, "version": 6, "rebalancing": True, "margin": 0.9, "safety": 0.1, "s": 1, "towards": T2}, 3 if q else 5),
+                ({"scripted": "dw", "d": 2, "lmin": 1, "lmax": 2, "version": 6, "rebalancing": True, "margin": 0.9, "safety": 0.1, "s": 1}, 1 if q else 2),
+                ({"scripted": "es", "d": 2, "lmin": 1, "lmax": 2, "version": 0, "nref": 1, "automatic": False, "single_dim": False, "s": 1, "towards": T2}, 3 if q else 5),
+                ({"scripted": "es", "d": 2, "lmin": 1, "lmax": 2, "version": 0, "nref": 1, "automatic": False, "single_dim": False, "s": 1, "special": True}, 2 if q else 3),
+                ({"scripted": "es", "d": 2, "lmin": 1, "lmax": 2, "version": 2, "nref": 1, "automatic": True, "single_dim": False, "s": 1, "towards": T2}, 2 if q else 4),
+                ({"scripted": "cell", "d": 2, "lmin": 1, "lmax": 2, "s": 1, "special": True}, 2 if q else 3)]
+    ctx.bounds["scripted_histories"] = []
+    for config, D in scripted:
+        tag = "scripted_%s_v%s_D%d%s" % (config["scripted"], config.get("version"), D, "_towards" if config.get("towards") else "")
+        st = core.bfs(ctx, config, D, tag=tag)
+        ctx.bounds["scripted_histories"].append(dict(st, tag=tag))
     return ctx.finish(
         rule="one case = (configuration, interruption point k, variant): run stopped exactly at evaluation k of the uninterrupted "
              "run (max_evaluations = n_k - 1), then continued / saved+restored+continued; ALL evaluation indices k of every "
-             "uninterrupted run are enumerated; non-trivial = interruption strictly inside the run",
+             "uninterrupted run are enumerated; non-trivial = interruption strictly inside the run.  Explorer part: BFS over scripted "
+             "refinement histories (dimension-wise, extend-split, cell); in every reached state the history is re-run with EVERY split "
+             "point k = 0..len and both documented continuations and must end in the same structure/result",
         assumptions=["d=2, real estimators and integrands of the C13 menu; save/restore through the library's dill persistence into the "
                      "scratch directory", "results compared to 1e-12 relative, structures/schemes/point counts exactly"])
